@@ -56,3 +56,15 @@ class DecayKernelAllSizes(Contract):
             return {"matrix": np.zeros((nt, nr)), "rates": rng.uniform(0.1, 2, nr), "times": rng.uniform(-1, 3, nt)}
 
         return records(no_irf_spec(), self.name) + crosscheck(no_irf_spec(), args)
+
+
+def _with_selftest(fn):
+    def wrapped(self, tier):
+        from contracts.unbounded import engine_selftest
+
+        return fn(self, tier) + engine_selftest()
+
+    return wrapped
+
+
+DecayKernelAllSizes.static_obligations = _with_selftest(DecayKernelAllSizes.static_obligations)
